@@ -60,7 +60,15 @@ def snap_command(input_workload, output_file, ticks_per_second, force=False):
             # Modify arrival_seconds if it's set (not empty)
             if row['arrival_seconds'].strip():
                 original = float(row['arrival_seconds'])
-                snapped = math.floor(original * ticks_per_second) / ticks_per_second
+                # The float product can land on the wrong side of a tick
+                # boundary, so pick the largest tick whose time is <= original
+                # by comparing against the tick times themselves.
+                ticks = math.floor(original * ticks_per_second)
+                while ticks / ticks_per_second > original:
+                    ticks -= 1
+                while (ticks + 1) / ticks_per_second <= original:
+                    ticks += 1
+                snapped = ticks / ticks_per_second
                 row['arrival_seconds'] = snapped
 
             writer.writerow(row)
